@@ -150,61 +150,89 @@ Fixpoint trace_fuel (fuel : nat) (i : interp0) (last : string * string) (steps :
   end.
 Definition impl_trace (bits : list bit) : string :=
   let i := start bits in trace_fuel (S (remaining notx i)) i ("", "") "".
-(* ---- interp.step_vs_run ---- *)
-Inductive stepped := SV (so : string) (n : N) (i : interp0) (last : string * string) | SVPanic | SVFuel.
-Fixpoint step_all (fuel : nat) (i : interp0) (n : N) (last : string * string) : stepped :=
-  match fuel with
-  | O => SVFuel
-  | S f =>
-      match next0 i with
-      | StepNone i' => SV "F" n i' last
-      | StepErr i' => SV "E" n i' last
-      | StepPanic => SVPanic
-      | StepOk i' =>
-          let st := istate i' in
-          step_all f i' (n + 1)%N (show_items (stack st), show_items (alt_stack st))
-      end
-  end.
+(* ---- interp.step_vs_run / interp.txrun ---- *)
+Section SVR.
+  Variable tc : Type.
+  Variable pre : tc -> nat -> bytes -> outcome bytes.
+  Variable ver : tc -> bytes -> bytes -> bytes -> outcome bool.
+  Notation nextT := (next_impl tc pre ver).
+  Notation runT := (Interp.run tc pre ver).
 
-Definition impl_step_vs_run (bits : list bit) : string :=
-  let i0 := start bits in
-  match step_all (S (remaining notx i0)) i0 0%N ("", "") with
-  | SVPanic => "PANIC"
-  | SVFuel => "FUEL"
-  | SV so n i last =>
-      let st := istate i in
-      let now := (show_items (stack st), show_items (alt_stack st)) in
-      let eqp (a b : string * string) := String.eqb (fst a) (fst b) && String.eqb (snd a) (snd b) in
-      let keeps := if eqp now last then "1" else "0" in
-      let again : option string :=
-        match next0 i with
-        | StepPanic => None
-        | StepNone _ => Some (if String.eqb so "E" then "N" else "-")
-        | StepOk _ => Some "O"
-        | StepErr i2 =>
-            if String.eqb so "E" then
-              let s2 := istate i2 in
-              Some ("E" +++ (if eqp (show_items (stack s2), show_items (alt_stack s2)) now then "1" else "0"))
-            else Some "E"
-        end in
-      match again with
-      | None => "PANIC"
-      | Some ag =>
-          let ran : option (string * interp0) :=
-            match run0 i0 with
-            | RunOk j => Some ("O", j) | RunErr j => Some ("E", j) | _ => None
-            end in
-          match ran with
-          | None => "PANIC"
-          | Some (ro, j) =>
-              let st2 := istate j in
-              let same := if Bool.eqb (String.eqb so "F") (String.eqb ro "O")
-                             && eqp now (show_items (stack st2), show_items (alt_stack st2)) then "1" else "0" in
-              "OK:" +++ so +++ ";" +++ dec_of_N n +++ ";" +++ show_state st +++ ";" +++ dec_of_N (N.of_nat (script_index i))
-              +++ ";" +++ ro +++ ";" +++ show_state st2 +++ ";" +++ dec_of_N (N.of_nat (script_index j))
-              +++ ";" +++ ag +++ ";" +++ same +++ ";" +++ keeps
-          end
-      end
+  Inductive stepped := SV (so : string) (n : N) (i : interp tc) (last : string * string) | SVPanic | SVFuel.
+  Fixpoint step_all (fuel : nat) (i : interp tc) (n : N) (last : string * string) : stepped :=
+    match fuel with
+    | O => SVFuel
+    | S f =>
+        match nextT i with
+        | StepNone i' => SV "F" n i' last
+        | StepErr i' => SV "E" n i' last
+        | StepPanic => SVPanic
+        | StepOk i' =>
+            let st := istate i' in
+            step_all f i' (n + 1)%N (show_items (stack st), show_items (alt_stack st))
+        end
+    end.
+
+  Definition svr (i0 : interp tc) : string :=
+    match step_all (S (remaining tc i0)) i0 0%N ("", "") with
+    | SVPanic => "PANIC"
+    | SVFuel => "FUEL"
+    | SV so n i last =>
+        let st := istate i in
+        let now := (show_items (stack st), show_items (alt_stack st)) in
+        let eqp (a b : string * string) := String.eqb (fst a) (fst b) && String.eqb (snd a) (snd b) in
+        let keeps := if eqp now last then "1" else "0" in
+        let again : option string :=
+          match nextT i with
+          | StepPanic => None
+          | StepNone _ => Some (if String.eqb so "E" then "N" else "-")
+          | StepOk _ => Some "O"
+          | StepErr i2 =>
+              if String.eqb so "E" then
+                let s2 := istate i2 in
+                Some ("E" +++ (if eqp (show_items (stack s2), show_items (alt_stack s2)) now then "1" else "0"))
+              else Some "E"
+          end in
+        match again with
+        | None => "PANIC"
+        | Some ag =>
+            let ran : option (string * interp tc) :=
+              match runT i0 with
+              | RunOk j => Some ("O", j) | RunErr j => Some ("E", j) | _ => None
+              end in
+            match ran with
+            | None => "PANIC"
+            | Some (ro, j) =>
+                let st2 := istate j in
+                let same := if Bool.eqb (String.eqb so "F") (String.eqb ro "O")
+                               && eqp now (show_items (stack st2), show_items (alt_stack st2)) then "1" else "0" in
+                "OK:" +++ so +++ ";" +++ dec_of_N n +++ ";" +++ show_state st +++ ";" +++ dec_of_N (N.of_nat (script_index i))
+                +++ ";" +++ ro +++ ";" +++ show_state st2 +++ ";" +++ dec_of_N (N.of_nat (script_index j))
+                +++ ";" +++ ag +++ ";" +++ same +++ ";" +++ keeps
+            end
+        end
+    end.
+End SVR.
+
+Definition impl_step_vs_run (bits : list bit) : string := svr notx nopre nover (start bits).
+
+(* interp.txrun: one input, unlocking and locking script given as bytes, Interpreter::from_transaction(&tx, idx).
+   The generator only supplies data that is not a signature, so whatever the flag byte, the transaction side of
+   the CHECKSIG family ends in an error (no flag / unknown flag / preimage error / DER error): both parameters
+   are the constant Err.  What is tied here is the stack protocol before that point and the absence of panics. *)
+Definition gpre (t : unit) (_ : nat) (_ : bytes) : outcome bytes := Err.
+Definition gver (t : unit) (_ _ _ : bytes) : outcome bool := Err.
+Definition impl_txrun (u l : bytes) (idx : N) : string :=
+  match from_bytes u, from_bytes l with
+  | Ok ub, Ok lb =>
+      if negb (idx =? 0)%N then "ERR"
+      else match from_bytes (to_bytes ub ++ to_bytes lb) with
+           | Ok bits => svr unit gpre gver (from_script_bits unit bits (Some tt))
+           | Err => "ERR"
+           | Panic => "PANIC"
+           end
+  | Panic, _ | _, Panic => "PANIC"
+  | _, _ => "ERR"
   end.
 
 (* C16: whatever the script, a state or an error; stepping = run; an error keeps the stacks *)
@@ -248,5 +276,10 @@ Definition run (op : string) (args : list string) : string :=
   | "interp.tracebits", [a] => with_tree a do_trace
   | "interp.step_vs_run", [a] => with_bytes a do_svr
   | "interp.step_vs_runbits", [a] => with_tree a do_svr
+  | "interp.txrun", [u; l; n] =>
+      match expand u, expand l, N_of_dec n with
+      | Some ub, Some lb, Some idx => out3 (impl_txrun ub lb idx) (spec_step_vs_run +++ "~ERR") "-"
+      | _, _, _ => "BADARG"
+      end
   | _, _ => "BADOP"
   end.
